@@ -42,6 +42,20 @@ fn c18_generate_minmax() {
     kani::cover!(min < max);
 }
 
+/// symbolic interval over the whole finite range (the width `max - min` may overflow to infinity)
+#[kani::proof]
+fn c18_generate_minmax_wide() {
+    let state: u64 = kani::any();
+    kani::assume(state < M);
+    let min: f32 = kani::any();
+    let max: f32 = kani::any();
+    kani::assume(min.is_finite() && max.is_finite() && min <= max);
+    let mut g = Generator::create(state);
+    let v = g.generate(min, max);
+    assert!(v >= min && v <= max, "generate(min,max) in [min,max]");
+    kani::cover!(max - min == f32::INFINITY);
+}
+
 /// the sequence is a pure function of the seed
 #[kani::proof]
 fn c18_purity() {
